@@ -357,8 +357,19 @@ def correspond(ctx):
     return st
 
 
+def on_disagree(case, impl, model):
+    f = case.split("\t")
+    if f[0] == "eql" and impl == "T" and model == "F":
+        return ("eql-accepts-different-keys", "jose_jwk_eql reports two keys equal whose required members differ (the thumbprint inputs of the model differ)")
+    if f[0] == "eql" and impl == "F" and model == "T":
+        return ("eql-rejects-equal-keys", "jose_jwk_eql reports two keys different whose required members are equal")
+    if f[0] in ("thp", "thpbuf") and impl != model:
+        return ("thp-differs-from-rfc7638", "the thumbprint differs from the digest of the RFC 7638 input computed by the model")
+    return None
+
+
 def standard_part(ctx, cases, dist):
     return runner.standard(
-        ctx, cases, Oracle(), nontrivial,
+        ctx, cases, Oracle(), nontrivial, on_disagree=on_disagree,
         rule="JWK -> OpenSSL -> JWK round trips (both routes) of EC keys with leading-zero coordinates and RSA keys: members, thumbprint and equality preserved; jose_jwk_thp / _thp_buf / _eql on generated keys (all types, kty spellings (incl. pairs that differ ONLY in the letter case of kty), missing/extra members, member orders, non-ASCII and escape-needing values, non-string values), all five hash names + unknown ones, buffer sizes around the digest length, pairs and triples for the relation laws; non-trivial = a thumbprint was produced / keys compared equal",
         dist=dist)
